@@ -117,3 +117,16 @@ def run(facts, rep, ctx):
         else:
             rep.bad(rule, key, '%s:%s' % (fe.file, fe.line), 'forward_ext is not the swapped backward extension by the complement '
                                                              '(interval literals %s, complement symbol: %s, calls %s)' % (crossed, comp_ok, names))
+
+
+_run_before_round2 = run
+
+
+def run(facts, rep, ctx):
+    """rules added after the second round of independent seeding (rules/round2.py)"""
+    _run_before_round2(facts, rep, ctx)
+    from . import round2
+    # bi-interval extension rests on the sampled Occ table: its writer/reader agreement (rule SB-10 of C04) is part of this check
+    from . import c04
+    c04.run(facts, rep, ctx)
+
